@@ -1109,17 +1109,31 @@ class DomainMapping(CanBehaveLikeAVariable[T], ABC):
         if self._id_ in sources:
             yield sources
             return
+        is_condition = self._is_used_as_condition_
         child_val = self._child_._evaluate__(sources, yield_when_false=self._yield_when_false_)
         for child_v in child_val:
             for v in self._apply_mapping_(child_v[self._child_._id_]):
                 values = copy(child_v)
-                if (not self._invert_ and v.value) or (self._invert_ and not v.value):
+                if not is_condition:
+                    # A mapped value that is used as a value (operand, selected output, argument) is never filtered.
+                    self._is_false_ = False
+                elif (not self._invert_ and v.value) or (self._invert_ and not v.value):
                     self._is_false_ = False
                 else:
                     self._is_false_ = True
                 if self._yield_when_false_ or not self._is_false_:
                     values[self._id_] = v
                     yield values
+
+    @property
+    def _is_used_as_condition_(self) -> bool:
+        """
+        Whether this mapping stands in condition position (and is thus interpreted as a boolean) or is used as a value.
+        """
+        parent = self._parent_
+        return (isinstance(parent, LogicalOperator)
+                or (isinstance(parent, QueryObjectDescriptor) and parent._child_ is self)
+                or (isinstance(parent, ForAll) and self is parent.condition))
 
     @abstractmethod
     def _apply_mapping_(self, value: HashedValue) -> Iterable[HashedValue]:
